@@ -449,28 +449,31 @@ Proof.
     cbn; repeat split; auto.
 Qed.
 
-(* F1 (C06 finding): a timed-out request is NOT finished - handle_switchover writes it back as pending with
-   one more attempt counted, and the next iteration does the same *)
-Theorem timed_out_request_stays_pending cfg env m cs active master sw tr o :
+(* a timed-out request is finished as rejected (after the repair ff31fd9): the only coordination writes of the
+   iteration are the removal of the request and - when that succeeded - its record under last_rejected_switch;
+   nothing else is attempted *)
+Theorem timed_out_request_is_rejected cfg env m cs active master sw tr o :
   sw_initiated_at sw <> 0 ->
   runs (handle_switchover cfg env m cs active master sw) tr o ->
   forall e0 tr', tr = e0 :: tr' -> c_switchover_timeout cfg < now_val e0 - sw_initiated_at sw ->
-  exists d, switch_writes tr = [d] /\ exists t, ev_call d = DcsSet PSwitch (VSwitch (with_result sw false t (sw_run_count sw + 1))).
+  exists t rc,
+    let rec := with_result sw false t rc in
+    match switch_writes tr with
+    | [d] => ev_call d = DcsDelete PSwitch /\ ev_resp d <> ROk
+    | [d; s] => ev_call d = DcsDelete PSwitch /\ ev_resp d = ROk /\ ev_call s = DcsSet PLastRejected (VSwitch rec)
+    | _ => False
+    end.
 Proof.
   intros Hi H e0 tr' -> Ht. unfold handle_switchover in H. apply run_now in H. destruct H as (e & tr2 & E & Ec & H).
   inversion E; subst e tr2. clear E.
   assert (negb (sw_initiated_at sw =? 0) && (c_switchover_timeout cfg <? now_val e0 - sw_initiated_at sw) = true) as C.
   { apply andb_true_iff. split; [apply negb_true_iff; apply Z.eqb_neq; exact Hi|apply Z.ltb_lt; exact Ht]. }
   rewrite C in H.
+  assert (W0 : forall t, switch_writes (e0 :: t) = switch_writes t) by (intros t; cbn; rewrite Ec; reflexivity).
+  rewrite W0.
   destruct (runs_bind_inv _ _ _ _ H) as [(t1 & t2 & u & R1 & R2 & ->)|(s & R1 & ->)].
-  2:{ exfalso. destruct (nopanic_sound _ (np_log_failure sw) _ _ R1) as [x K]. discriminate K. }
-  assert (T1 : switch_writes t1 = []) by (apply switch_writes_timing; exact (allcalls_sound _ _ (tc_log_failure _) _ _ R1)).
-  assert (W0 : switch_writes (e0 :: t1 ++ t2) = switch_writes t2) by (cbn; rewrite Ec; rewrite switch_writes_app, T1; reflexivity). rewrite W0.
-  destruct (runs_bind_inv _ _ _ _ R2) as [(a1 & a2 & x & Ra & Rb & ->)|(s & Ra & ->)].
-  - destruct (fail_switchover_counts _ _ _ Ra) as (f0 & f1 & -> & Ef0 & Ef1). cbn in Rb. destruct Rb as [-> _].
-    exists f1. split; [cbn; rewrite Ef0, Ef1; reflexivity|]. exists (now_val f0). exact Ef1.
-  - destruct (fail_switchover_counts _ _ _ Ra) as (f0 & f1 & -> & Ef0 & Ef1).
-    exists f1. split; [cbn; rewrite Ef0, Ef1; reflexivity|]. exists (now_val f0). exact Ef1.
+  - cbn in R2. destruct R2 as [-> _]. rewrite app_nil_r. exact (finish_switchover_records _ _ _ _ R1).
+  - exact (finish_switchover_records _ _ _ _ R1).
 Qed.
 
 (* attempts are bounded over any history: every failed attempt adds one, and a planned request is rejected at
